@@ -81,6 +81,12 @@ def evaluate(name, src, prop, tier, all_checks):
     fresh_wt()
     try:
         r = sh("git", "-C", WT, "apply", "--whitespace=nowarn", patch)
+        if r.returncode != 0:
+            # the patch was written against an earlier HEAD: try a 3-way merge onto this one
+            r = sh("git", "-C", WT, "apply", "-3", "--whitespace=nowarn", patch)
+            if r.returncode == 0:
+                sh("git", "-C", WT, "reset", "-q")
+                meta["applied_with_3way_merge"] = True
         meta["applies"] = r.returncode == 0
         if not meta["applies"]:
             meta["apply_error"] = r.stderr[-400:]
